@@ -42,6 +42,12 @@ type Machine[I any] struct {
 	// by side, a leak between instances would be blamed on the wrong history, or be undone by a
 	// neighbour before it is seen.
 	Sequential bool
+	// NoopProbeDepth: the state key only shows what the dump knows about. An operation that is refused
+	// (the key does not move) may still leave something behind that the dump cannot see - a field added
+	// by a later change. From states up to this depth (0 = off; 1 = the initial state only, ...) a
+	// successor reached through such a no-op transition is kept as a node of its own, once, so that every
+	// operation is also tried right after every refused one.
+	NoopProbeDepth int
 	// MaxDepth, when positive, bounds the history length: states at that depth are checked but not
 	// expanded, and the search then counts as complete for "all histories up to MaxDepth".
 	MaxDepth int
@@ -49,6 +55,7 @@ type Machine[I any] struct {
 
 type bfsStats struct {
 	States, Transitions int
+	NoopNodes           int
 	MaxDepth            int
 	Complete            bool
 }
@@ -138,12 +145,16 @@ func rebuildObserved[I any](m *Machine[I], hist []int) (in I, ok bool) {
 
 // BFS explores the machine to a fix-point (or MaxStates / deadline) and reports violations.
 func BFS[I any](c *Ctx, m *Machine[I]) bfsStats {
-	type node struct{ hist []int }
+	type node struct {
+		hist []int
+		key  string
+		noop bool // reached through a no-op transition (kept although its key was known)
+	}
 	st := bfsStats{}
 	seen := map[string]struct{}{}
 	root := m.New()
 	seen[m.Key(root)] = struct{}{}
-	frontier := []node{{}}
+	frontier := []node{{key: m.Key(root)}}
 	st.States = 1
 	depth := 0
 	complete := true
@@ -152,6 +163,7 @@ func BFS[I any](c *Ctx, m *Machine[I]) bfsStats {
 			keys  []string
 			hists [][]int
 			trans int
+			from  int
 		}
 		results := make([]res, len(frontier))
 		forEach := parallelFor
@@ -168,6 +180,7 @@ func BFS[I any](c *Ctx, m *Machine[I]) bfsStats {
 			}
 			h := frontier[i].hist
 			var r res
+			r.from = i
 			for op := 0; op < m.NumOps; op++ {
 				in, names, ok := rebuild(m, h)
 				if !ok {
@@ -222,11 +235,15 @@ func BFS[I any](c *Ctx, m *Machine[I]) bfsStats {
 			st.Transitions += r.trans
 			for j, k := range r.keys {
 				if _, dup := seen[k]; dup {
+					if parent := frontier[r.from]; m.NoopProbeDepth > 0 && depth < m.NoopProbeDepth && !parent.noop && k == parent.key {
+						next = append(next, node{hist: r.hists[j], key: k, noop: true})
+						st.NoopNodes++
+					}
 					continue
 				}
 				seen[k] = struct{}{}
 				st.States++
-				next = append(next, node{r.hists[j]})
+				next = append(next, node{hist: r.hists[j], key: k})
 			}
 		}
 		if c.TimeUp() {
